@@ -1,5 +1,195 @@
-"""Native replays of counter-models on the real code (same tree)."""
+"""Native replays: a counter-model of a failed property obligation is decoded to concrete inputs and the clause is evaluated on the
+REAL function (imported from the same /repo tree) with the real HiGHS back end.  ok=True means: falsified natively (a real violation)."""
+import json
+import math
+from fractions import Fraction
+
+import z3
+
+
+def _decl(model, prefix):
+    best = None
+    for d in model.decls():
+        n = d.name()
+        if n == prefix or n.startswith(prefix + "!"):
+            best = d
+            break
+    return best
+
+
+def _num(v):
+    if v is None:
+        return None
+    if z3.is_int_value(v):
+        return v.as_long()
+    if z3.is_rational_value(v):
+        return float(Fraction(v.numerator_as_long(), v.denominator_as_long()))
+    if z3.is_algebraic_value(v):
+        return float(v.approx(12).as_fraction())
+    if z3.is_true(v):
+        return True
+    if z3.is_false(v):
+        return False
+    try:
+        return float(str(v))
+    except ValueError:
+        return None
+
+
+def mconst(model, prefix, default=None):
+    d = _decl(model, prefix)
+    if d is None:
+        return default
+    v = _num(model.eval(d(), model_completion=True)) if d.arity() == 0 else None
+    return default if v is None else v
+
+
+def mfun(model, prefix, *args, default=None):
+    d = _decl(model, prefix)
+    if d is None:
+        return default
+    if d.arity() == 0:      # array-valued constant
+        t = d()
+        for a in args:
+            t = t[a]
+    else:
+        t = d(*[z3.IntVal(a) if isinstance(a, int) else a for a in args])
+    v = _num(model.eval(t, model_completion=True))
+    return default if v is None else v
+
+
+def _sw():
+    import flowpaths.utils.solverwrapper as sw
+    return sw.SolverWrapper(external_solver="highs", log_to_console="false", threads=1)
+
+
+def _opt(s, expr, sense):
+    s.set_objective(expr, sense=sense)
+    s.optimize()
+    st = s.get_model_status()
+    return st, (s.get_objective_value() if st == "kOptimal" else None)
+
+
+def native_product_check(kind, lb, ub, xval, cval, tol=1e-6):
+    """rows of the real helper must force p = x*c: min p = max p = x*c with x, c fixed; returns (ok_exact, detail)"""
+    out = {}
+    for sense in ("minimize", "maximize"):
+        s = _sw()
+        if kind == "binary":
+            X = s.add_variables([0], "x", lb=0, ub=1, var_type="integer")[0]
+        else:
+            X = s.add_variables([0], "x", lb=0, ub=max(0, math.floor(ub)), var_type="integer")[0]
+        C = s.add_variables([0], "c", lb=lb, ub=ub, var_type="continuous")[0]
+        big = 4 * (abs(lb) + abs(ub) + 1) * (abs(ub) + 2)
+        Pv = s.add_variables([0], "p", lb=-big, ub=big, var_type="continuous")[0]
+        if kind == "binary":
+            s.add_binary_continuous_product_constraint(X, C, Pv, lb, ub, "t")
+        else:
+            s.add_integer_continuous_product_constraint(X, C, Pv, lb, ub, "t")
+        s.add_constraint(X == xval, name="fx")
+        s.add_constraint(C == cval, name="fc")
+        out[sense] = _opt(s, Pv + 0, sense)
+    want = xval * cval
+    exact = all(st == "kOptimal" and abs(v - want) <= tol * (1 + abs(want)) for st, v in out.values())
+    return exact, dict(lb=lb, ub=ub, x=xval, c=cval, expected_product=want, observed=out)
+
+
+def replay_binary_product(model):
+    lb, ub, b, c = (mconst(model, k, 0.0) for k in ("lb", "ub", "b", "c"))
+    exact, det = native_product_check("binary", lb, ub, int(round(b)), c)
+    return dict(ok=not exact, function="SolverWrapper.add_binary_continuous_product_constraint", **det)
+
+
+def replay_integer_product(model):
+    lb, ub, x, c = mconst(model, "lb", 0.0), mconst(model, "ub", 1.0), mconst(model, "X", 0), mconst(model, "C", 0.0)
+    exact, det = native_product_check("integer", lb, ub, int(x), c)
+    return dict(ok=not exact, function="SolverWrapper.add_integer_continuous_product_constraint", **det)
+
+
+def native_piecewise_check(ranges, constants, t, x, tol=1e-6):
+    out = {}
+    for sense in ("minimize", "maximize"):
+        s = _sw()
+        lo = min(r[0] for r in ranges) - 1
+        hi = max(r[1] for r in ranges) + 1
+        X = s.add_variables([0], "x", lb=lo, ub=hi, var_type="continuous")[0]
+        cl, ch = min(constants) - 1, max(constants) + 1
+        Y = s.add_variables([0], "y", lb=cl, ub=ch, var_type="continuous")[0]
+        s.add_piecewise_constant_constraint(X, Y, ranges, constants, "pw")
+        s.add_constraint(X == x, name="fx")
+        out[sense] = _opt(s, Y + 0, sense)
+    want = constants[t]
+    exact = all(st == "kOptimal" and abs(v - want) <= tol * (1 + abs(want)) for st, v in out.values())
+    return exact, dict(ranges=ranges, constants=constants, x=x, expected_y=want, observed=out)
+
+
+def replay_piecewise(model):
+    n = int(mconst(model, "ranges.len", 0))
+    if not (1 <= n <= 12):
+        return dict(ok=False, error="counter-model has %d ranges; not concretised" % n)
+    ranges = [(mfun(model, "ranges.at.0", i, default=0.0), mfun(model, "ranges.at.1", i, default=0.0)) for i in range(n)]
+    constants = [mfun(model, "constants.at.0", i, default=0.0) for i in range(n)]
+    t, x = int(mconst(model, "t", 0)), mconst(model, "x", 0.0)
+    exact, det = native_piecewise_check(ranges, constants, t, x)
+    return dict(ok=not exact, function="SolverWrapper.add_piecewise_constant_constraint", **det)
+
+
+def native_bound_queue(cols):
+    """cols: list of dict(lb, ub, fix=None|v, lower=None|v).  Applies the queues through the real wrapper, reads the bounds back."""
+    import numpy as np
+    s = _sw()
+    n = len(cols)
+    vs = s.add_variables(list(range(n)), "v", lb=[c["lb"] for c in cols], ub=[c["ub"] for c in cols], var_type="continuous")
+    for i, c in enumerate(cols):
+        if c.get("fix") is not None:
+            s.queue_fix_variable(vs[i], c["fix"])
+        if c.get("lower") is not None:
+            s.queue_set_var_lower_bound(vs[i], c["lower"])
+    s._apply_pending_bound_updates()
+    st, nn, cost, lower, upper, nnz = s.solver.getCols(n, np.arange(n, dtype=np.int32))
+    obs = [dict(lb=float(lower[i]), ub=float(upper[i])) for i in range(n)]
+    bad = []
+    for i, c in enumerate(cols):
+        elb = c["lower"] if c.get("lower") is not None else (c["fix"] if c.get("fix") is not None else c["lb"])
+        eub = c["fix"] if c.get("fix") is not None else c["ub"]
+        if abs(obs[i]["lb"] - elb) > 1e-9 or abs(obs[i]["ub"] - eub) > 1e-9:
+            bad.append(dict(col=i, expected=dict(lb=elb, ub=eub), observed=obs[i]))
+    queues_empty = not (s._pending_fix_vars or s._pending_fix_vals or s._pending_lb_vars or s._pending_lb_vals)
+    return bad, obs, queues_empty
+
+
+def replay_bound_queue(model):
+    # take the first queued lower bound of the counter-model (column value, its initial bounds) and one untouched / one fixed column
+    li = mfun(model, "lbq.vars.at.1", 0, default=1)
+    lv = mfun(model, "lbq.vals.at.0", 0, default=1.0)
+    lb0 = mfun(model, "lb0", int(li), default=0.0)
+    ub0 = mfun(model, "ub0", int(li), default=5.0)
+    if not (ub0 >= lv):
+        ub0 = lv + abs(lv) + 1      # keep the instance meaningful (lower bound below the upper bound)
+    if lb0 > ub0:
+        lb0 = ub0 - 1
+    cols = [dict(lb=0.0, ub=7.0), dict(lb=lb0, ub=ub0, lower=lv), dict(lb=0.0, ub=9.0, fix=2.0)]
+    bad, obs, qe = native_bound_queue(cols)
+    return dict(ok=bool(bad) or not qe, function="SolverWrapper._apply_pending_bound_updates", columns=cols, mismatches=bad, observed=obs, queues_empty=qe)
 
 
 def run(d):
+    """./check <id> --replay <file>: re-run the stored inputs natively"""
+    rp = d.get("replay") or d.get("failure", {}).get("replay")
+    if d.get("kind") == "pyvc-obligation" and rp:
+        fn = rp.get("function", "")
+        if "piecewise" in fn:
+            exact, det = native_piecewise_check([tuple(r) for r in rp["ranges"]], rp["constants"], rp["constants"].index(rp["expected_y"]), rp["x"])
+            print("REPLAY piecewise exact=%s %s" % (exact, json.dumps(det, default=str)))
+            return 0 if exact else 1
+        if "_apply_pending_bound_updates" in fn:
+            bad, obs, qe = native_bound_queue(rp["columns"])
+            print("REPLAY bound queue mismatches=%s queues_empty=%s" % (bad, qe))
+            return 1 if (bad or not qe) else 0
+        if "product" in fn:
+            kind = "binary" if "binary" in fn else "integer"
+            exact, det = native_product_check(kind, rp["lb"], rp["ub"], rp["x"], rp["c"])
+            print("REPLAY product exact=%s %s" % (exact, json.dumps(det, default=str)))
+            return 0 if exact else 1
+    print("REPLAY: no native replay recorded for this file (obligation-level evidence only)")
     return 0
